@@ -17,6 +17,7 @@
   below: the update is now rejected.)
 -/
 import Proofs.C06
+import Proofs.C06Ext
 
 namespace MongoModel.Props.C06
 open MongoModel MongoModel.Spec
@@ -268,5 +269,209 @@ example :
     (createIndexColl 0 { demoColl with indexes := [] } demoIx).2 = .ok "k_1" ∧
     (createIndexColl 0 demoColl (Index.mk "i" [("_id", .int 1)] true false none none)).2 = .ok "i" := by
   decide +kernel
+
+/-! ### uniqueness over ALL modelled operations (extended step)
+
+`stepX` / `stepXS` (MongoModel/FindModify.lean) add `find_one`, `find_one_and_update / _replace /
+_delete`, `bulk_write` and the bulk builder to the operations of `stepColl`; `runX`
+(Spec/HistoryExt.lean) is `run` over `stepXS` — what the correspondence harness drives.  The
+theorems below lift `step_uniq_inv_partial` / `reachable_uniq_partial` to them, with the same
+single hypothesis: the RESULTING collection is in the scalar-key domain.  Nothing is asked of the
+collections between the requests of a bulk. -/
+
+/-- The unrestricted statement for the extended step. -/
+def stepX_uniq_inv_full : Prop :=
+  ∀ (cfg : Cfg) (now : Int) (c : Coll) (op : Val), UniqInv c → UniqInv (stepX cfg now c op).1
+
+/-- It is FALSE of the code, for the reason `step_uniq_inv_full` is (known finding
+    `deadend-null`): the witness of `step_uniq_inv_full_fails`, issued as
+    `bulk_write([InsertOne({_id: 2, a: ""})])`. -/
+theorem stepX_uniq_inv_full_fails : ¬ stepX_uniq_inv_full := Proofs.C06Ext.stepX_uniq_false
+
+/-- **Every modelled operation preserves uniqueness** — the basic ones, `find_one`,
+    `find_one_and_update / _replace / _delete` (with or without upsert, sort, projection,
+    `after`), `bulk_write` (ordered or not, whatever requests fail, aborted or not) and a bulk
+    builder executed any number of times — PROVIDED the resulting collection is in the
+    scalar-key domain (`ScalarInv`; excluded: known findings `multikey`, `deadend-null`).
+    Nothing is assumed of the collection before, of the collections between the requests of a
+    bulk, nor of the operation. -/
+theorem stepX_uniq_inv_partial (cfg : Cfg) (now : Int) (c : Coll) (op : Val)
+    (hu : UniqInv c) (hs' : ScalarInv (stepX cfg now c op).1) : UniqInv (stepX cfg now c op).1 :=
+  Proofs.C06Ext.stepX_uniq_inv_alt cfg now c op hu hs'
+
+/-- … on states with a clock (`stepXS`). -/
+theorem stepXS_uniq_inv_partial (cfg : Cfg) (s : St) (op : Val)
+    (hu : UniqInv s.c) (hs' : ScalarInv (stepXS cfg s op).1.c) : UniqInv (stepXS cfg s op).1.c :=
+  Proofs.C06Ext.stepXS_uniq_inv_alt cfg s op hu hs'
+
+/-- For a concrete state and operation the hypotheses of `stepX_uniq_inv_partial` can be
+    discharged by evaluation. -/
+theorem stepX_uniq_inv_check (cfg : Cfg) (now : Int) (c : Coll) (op : Val)
+    (h : (Proofs.C06Lemmas.uniqB c && Proofs.C06Lemmas.scalB (stepX cfg now c op).1) = true) :
+    UniqInv (stepX cfg now c op).1 :=
+  Proofs.C06Ext.stepX_uniq_inv_check cfg now c op h
+
+/-- a unique index on `k`, three documents -/
+def demoCollX : Coll :=
+  { docs := [(.int 1, .doc [("_id", .int 1), ("k", .int 5)]),
+             (.int 2, .doc [("_id", .int 2), ("k", .int 6)]),
+             (.int 3, .doc [("_id", .int 3), ("k", .int 7)])],
+    indexes := [Index.mk "k_1" [("k", .int 1)] true false none none] }
+
+/-- an unordered bulk mixing all kinds: an accepted insert, one rejected (`8.0 == 8`), an
+    `UpdateMany` that edits the first document and is rejected on the second, a rejected upserting
+    replacement, an accepted upsert, a delete -/
+def demoBulk : Val :=
+  .arr [.str "bulk_write", .arr [
+    .arr [.str "InsertOne", .doc [("_id", .int 4), ("k", .int 8)]],
+    .arr [.str "InsertOne", .doc [("_id", .int 5), ("k", .dbl 8 0)]],
+    .arr [.str "UpdateMany", .doc [], .doc [("$set", .doc [("k", .int 9)])], .bool false],
+    .arr [.str "ReplaceOne", .doc [("_id", .int 6)], .doc [("k", .int 6)], .bool true],
+    .arr [.str "UpdateOne", .doc [("_id", .int 7)], .doc [("$set", .doc [("k", .int 10)])], .bool true],
+    .arr [.str "DeleteOne", .doc [("k", .int 7)]]], .bool false]
+
+/-- non-vacuity of `stepX_uniq_inv_partial`: `demoBulk` on `demoCollX`; a rejected
+    `find_one_and_update` (sorted, `k: 7 → 6`); an upserting `find_one_and_replace` -/
+example :
+    UniqInv (stepX {} 0 demoCollX demoBulk).1 ∧
+    UniqInv (stepX {} 0 demoCollX (.arr [.str "find_one_and_update", .doc [],
+      .doc [("$set", .doc [("k", .int 6)])], .null, .arr [.arr [.str "k", .int (-1)]],
+      .bool false, .bool true])).1 ∧
+    UniqInv (stepX {} 0 demoCollX (.arr [.str "find_one_and_replace", .doc [("_id", .int 9)],
+      .doc [("k", .int 1)], .null, .null, .bool true, .bool true])).1 :=
+  ⟨stepX_uniq_inv_check _ _ _ _ (by decide +kernel), stepX_uniq_inv_check _ _ _ _ (by decide +kernel),
+   stepX_uniq_inv_check _ _ _ _ (by decide +kernel)⟩
+
+/-- … what they did: the bulk raised BulkWriteError with DuplicateKeyError at the indexes 1, 2, 3
+    and left four documents with the keys 9, 6, 8, 10; the `find_one_and_update` was rejected;
+    the `find_one_and_replace` upserted -/
+example :
+    (match (stepX {} 0 demoCollX demoBulk).2 with
+     | .bulkErr (.doc d) => dget "writeErrors" d
+     | _ => none) == some (.arr [.doc [("index", .int 1), ("code", .int 11000)],
+                                 .doc [("index", .int 2), ("code", .int 11000)],
+                                 .doc [("index", .int 3), ("code", .int 11000)]]) ∧
+    (stepX {} 0 demoCollX demoBulk).1.docs.map (fun p => keyVals Proofs.C06Lemmas.cexIxK p.2) ==
+      [[.int 9], [.int 6], [.int 8], [.int 10]] ∧
+    (stepX {} 0 demoCollX (.arr [.str "find_one_and_update", .doc [],
+      .doc [("$set", .doc [("k", .int 6)])], .null, .arr [.arr [.str "k", .int (-1)]],
+      .bool false, .bool true])).2.isErr = true ∧
+    (stepX {} 0 demoCollX (.arr [.str "find_one_and_replace", .doc [("_id", .int 9)],
+      .doc [("k", .int 1)], .null, .null, .bool true, .bool true])).1.docs.length = 4 := by
+  decide +kernel
+
+/-- **In every state reachable through ANY of the modelled operations** (`runX`: any history
+    from the empty collection over the basic operations, `find_one`, the find-and-modify family,
+    `bulk_write` and the bulk builder) no two documents covered by a unique index have equal keys,
+    PROVIDED the final state is in the scalar-key domain (`ScalarInv`).  Neither the states along
+    the history nor the collections between the requests of its bulks need be in that domain:
+    the proof carries "uniqueness among the scalar-keyed, covered documents", which every
+    operation preserves with no hypothesis (`Proofs.C06Ext.stepX_carried`). -/
+theorem reachableX_uniq_partial (cfg : Cfg) (ops : List Val)
+    (hs : ScalarInv (runX cfg ops).2.c) : UniqInv (runX cfg ops).2.c :=
+  Proofs.C06Ext.reachableX_uniq_alt cfg ops hs
+
+/-- For a concrete history the hypothesis of `reachableX_uniq_partial` can be discharged by
+    evaluation. -/
+theorem reachableX_uniq_check (cfg : Cfg) (ops : List Val)
+    (h : Proofs.C06Lemmas.scalB (runX cfg ops).2.c = true) : UniqInv (runX cfg ops).2.c :=
+  Proofs.C06Ext.reachableX_uniq_check cfg ops h
+
+/-- the history used below: a unique index, an insert, an upserting `find_one_and_update`, one
+    rejected (`5.0 == 5`), a rejected sorted `find_one_and_replace`, an unordered `bulk_write`
+    mixing kinds with three failing requests, an ordered bulk builder that stops at a duplicate
+    and is executed twice, a `find_one_and_delete` -/
+def demoHistoryX : List Val := [
+  .arr [.str "create_index", .arr [.arr [.str "k", .int 1]], .doc [("unique", .bool true)]],
+  .arr [.str "insert_one", .doc [("_id", .int 1), ("k", .int 5)]],
+  .arr [.str "find_one_and_update", .doc [("_id", .int 2)], .doc [("$set", .doc [("k", .int 6)])],
+    .null, .null, .bool true, .bool true],
+  .arr [.str "find_one_and_update", .doc [("_id", .int 3)], .doc [("$set", .doc [("k", .dbl 5 0)])],
+    .null, .null, .bool true, .bool true],
+  .arr [.str "find_one_and_replace", .doc [("k", .int 6)], .doc [("k", .int 5)],
+    .null, .arr [.arr [.str "k", .int (-1)]], .bool false, .bool true],
+  .arr [.str "bulk_write", .arr [
+    .arr [.str "InsertOne", .doc [("_id", .int 4), ("k", .int 7)]],
+    .arr [.str "InsertOne", .doc [("_id", .int 5), ("k", .dbl 7 0)]],
+    .arr [.str "UpdateMany", .doc [], .doc [("$set", .doc [("k", .int 9)])], .bool false],
+    .arr [.str "ReplaceOne", .doc [("_id", .int 6)], .doc [("k", .int 6)], .bool true],
+    .arr [.str "UpdateOne", .doc [("_id", .int 7)], .doc [("$set", .doc [("k", .int 8)])], .bool true],
+    .arr [.str "DeleteOne", .doc [("k", .int 7)]]], .bool false],
+  .arr [.str "bulk_builder", .arr [
+    .arr [.str "InsertOne", .doc [("_id", .int 8), ("k", .int 1)]],
+    .arr [.str "InsertOne", .doc [("_id", .int 9), ("k", .int 1)]],
+    .arr [.str "InsertOne", .doc [("_id", .int 10), ("k", .int 2)]]], .bool true, .int 2],
+  .arr [.str "find_one_and_delete", .doc [("k", .int 5)], .null, .null]]
+
+/-- non-vacuity of `reachableX_uniq_partial` -/
+example : UniqInv (runX {} demoHistoryX).2.c := reachableX_uniq_check _ _ (by decide +kernel)
+
+/-- … and what happened along `demoHistoryX`: which steps raised, the final keys -/
+example :
+    (runX {} demoHistoryX).1.map (fun r => r.1.isErr) =
+      [false, false, false, true, true, true, false, false] ∧
+    (runX {} demoHistoryX).2.c.docs.map (fun p => keyVals Proofs.C06Lemmas.cexIxK p.2) ==
+      [[.int 9], [.int 6], [.int 8], [.int 1]] := by
+  decide +kernel
+
+/-! ### a duplicate key inside a bulk -/
+
+/-- **An `InsertOne` request that would create a duplicate key under a unique index yields a
+    write error** (DuplicateKeyError, reported by `bulkLoop` at the request's index) **and
+    leaves the collection unchanged at that step** — under the hypotheses of
+    `dup_write_rejected_dupkey` (no TTL index: expiry is C09's business). -/
+theorem bulk_dup_write_rejected (cfg : Cfg) (now : Int) (c : Coll) (idx : Nat) (d : Val)
+    (ix : Index) (p : Val × Val)
+    (hs : ScalarInv c) (hix : ix ∈ c.indexes) (hu : ix.unique = true) (hnt : c.ttlIndexes = [])
+    (hp : p ∈ c.docs) (hcp : covers ix p.2 = true) (hcd : covers ix (patchDT d) = true)
+    (hsd : scalarKeys ix (patchDT d) = true)
+    (heq : keyEq (keyVals ix p.2) (keyVals ix (patchDT d)) = true)
+    (hid : ∃ fs, d = .doc fs ∧ dhas "_id" fs = true)
+    (hk : ∃ k, storeKey (idOfDoc (patchDT d)) = .ok k)
+    (hone : ∀ i ∈ c.indexes, i.unique = true → i = ix)
+    (hpf : ∀ f, ix.partialFilter = some f → ∀ q ∈ c.docs, ∃ b, filterApplies f q.2 = .ok b) :
+    bulkOne cfg now c idx (.arr [.str "InsertOne", d]) = (c, .writeErr .dupKey) :=
+  Proofs.C06Ext.bulk_dup_write_rejected cfg now c idx d ix p hs hix hu hnt hp hcp hcd hsd heq hid hk hone hpf
+
+/-- … hence, at the level of the loop: the error is recorded at the request's index with code
+    11000; an ordered bulk stops there, an unordered one goes on from the same collection. -/
+theorem bulk_dup_write_error_at_index (cfg : Cfg) (now : Int) (ordered : Bool) (c : Coll)
+    (idx : Nat) (d : Val) (rest : List Val) (t : BulkTotals)
+    (h : bulkOne cfg now c idx (.arr [.str "InsertOne", d]) = (c, .writeErr .dupKey)) :
+    bulkLoop cfg now ordered (.arr [.str "InsertOne", d] :: rest) idx c t =
+      if ordered then
+        (c, .bulkErr ({ t with errors := t.errors ++
+          [Val.doc [("index", .int idx), ("code", .int 11000)]] }).toVal)
+      else
+        bulkLoop cfg now ordered rest (idx + 1) c { t with errors := t.errors ++
+          [Val.doc [("index", .int idx), ("code", .int 11000)]] } :=
+  Proofs.C06Ext.bulk_dup_at_index cfg now ordered c idx d rest t h
+
+/-- non-vacuity of both: `InsertOne({_id: 3, k: 5.0, live: true})` against `demoColl`
+    (`5.0 == 5` under the partial unique index `demoIx`), as the request of index 4 of an ordered bulk -/
+example : bulkLoop {} 0 true
+      [.arr [.str "InsertOne", .doc [("_id", .int 3), ("k", .dbl 5 0), ("live", .bool true)]],
+       .arr [.str "DeleteMany", .doc []]] 4 demoColl {} =
+    (demoColl, .bulkErr ({ ({} : BulkTotals) with errors :=
+      [Val.doc [("index", .int 4), ("code", .int 11000)]] }).toVal) :=
+  bulk_dup_write_error_at_index {} 0 true demoColl 4 _ _ {}
+    (bulk_dup_write_rejected {} 0 demoColl 4 _ demoIx
+      (.int 1, .doc [("_id", .int 1), ("k", .int 5), ("live", .bool true)])
+      ((Proofs.C06Lemmas.scalB_iff _).1 (by decide +kernel)) (by simp [demoColl]) rfl rfl
+      (by simp [demoColl]) (by decide +kernel) (by decide +kernel) (by decide +kernel)
+      (by decide +kernel) ⟨_, rfl, by decide +kernel⟩ ⟨.int 3, rfl⟩
+      (by
+        intro i hi hu
+        simp only [demoColl, List.mem_cons, List.not_mem_nil, or_false] at hi
+        rcases hi with rfl | rfl
+        · cases hu
+        · rfl)
+      (by
+        intro f hf q hq
+        cases hf
+        simp only [demoColl, List.mem_cons, List.not_mem_nil, or_false] at hq
+        rcases hq with rfl | rfl
+        · exact ⟨true, by decide +kernel⟩
+        · exact ⟨false, by decide +kernel⟩))
 
 end MongoModel.Props.C06
